@@ -35,7 +35,8 @@ func envOr(k, d string) string {
 }
 
 // packages always loaded from source (pure Go, interpreted)
-var defaultRoots = []string{"internal/stringslite", "errors", "bytes", "strings", "sort", "strconv", "unicode/utf8", "unicode", "math/bits", "encoding/binary", "encoding/hex", "container/list"}
+var defaultRoots = []string{"internal/stringslite", "errors", "bytes", "strings", "sort", "strconv", "unicode/utf8", "unicode", "math/bits", "encoding/binary", "encoding/hex", "container/list",
+	"github.com/hashicorp/golang-lru", "github.com/hashicorp/golang-lru/simplelru"}
 
 type TierCfg struct {
 	Params   map[string]int `json:"params"`
@@ -76,6 +77,7 @@ type KnownFinding struct {
 	Status   string `json:"status"`  // "known" | "fixed"
 	Commit   string `json:"commit"`  // for fixed
 	Match    string `json:"match"`   // optional regexp over "name=value ..." rendering of the counterexample
+	Predicate string `json:"predicate"` // optional named predicate over the counterexample (predicates.go)
 }
 
 func main() {
@@ -404,6 +406,28 @@ func finish(id, tier string, seed int, t0 time.Time, c *CheckCfg, dir string, ld
 		entrySummaries = append(entrySummaries, es)
 
 		// violations: replay natively, then match against known findings
+		// one native batch for all counterexamples of this entry
+		var batch []replayCase
+		var batchIdx []int
+		for vi, v := range rep.Violations {
+			if v.Internal || r.cfg.NoReplay {
+				continue
+			}
+			batch = append(batch, replayCase{Entry: r.cfg.Func, Vector: v.Vector, Params: r.params})
+			batchIdx = append(batchIdx, vi)
+		}
+		nativeRes := map[int]nativeOut{}
+		var nativeErr error
+		if len(batch) > 0 {
+			out, err := runNative(c, dir, batch)
+			nativeErr = err
+			if err == nil {
+				for k, vi := range batchIdx {
+					nativeRes[vi] = out[k]
+				}
+			}
+		}
+		printed := 0
 		for vi, v := range rep.Violations {
 			cex := renderCex(v)
 			path := filepath.Join(verifDir, "replays", id, fmt.Sprintf("%s_%s_%d.json", r.cfg.Func, sanitizeFile(v.Label), vi))
@@ -413,18 +437,16 @@ func finish(id, tier string, seed int, t0 time.Time, c *CheckCfg, dir string, ld
 			reproduced, detail := false, ""
 			if v.Internal || r.cfg.NoReplay {
 				detail = "counterexample depends on engine-internal choices (map order / schedule); not natively replayable"
-			} else {
-				out, err := runNative(c, dir, []replayCase{rc})
-				if err != nil {
-					detail = "native replay failed to run: " + err.Error()
-				} else if len(out) == 1 {
-					reproduced, detail = out[0].reproduces(v.Label)
-				}
+			} else if nativeErr != nil {
+				detail = "native replay failed to run: " + nativeErr.Error()
+			} else if o, ok := nativeRes[vi]; ok {
+				reproduced, detail = o.reproduces(v.Label)
 			}
 			if !reproduced {
 				inconcl = append(inconcl, fmt.Sprintf("%s: UNREPLAYED-COUNTEREXAMPLE label=%s (%s) cex: %s", r.cfg.Func, v.Label, detail, cex))
 				continue
 			}
+			curViolation = v
 			if kf := matchKnown(known, id, r.cfg.Func, v.Label, cex); kf != nil {
 				key := kf.Label + "|" + kf.Entry + "|" + kf.Match
 				if !knownPrinted[key] {
@@ -434,8 +456,11 @@ func finish(id, tier string, seed int, t0 time.Time, c *CheckCfg, dir string, ld
 				continue
 			}
 			nviol++
-			newViol = append(newViol, fmt.Sprintf("VIOLATION property=%s replay=%s", id, path))
-			fmt.Printf("  violated: %s — %s\n  counterexample: %s\n  native replay: %s\n", v.Label, v.Msg, cex, detail)
+			if printed < 6 {
+				newViol = append(newViol, fmt.Sprintf("VIOLATION property=%s replay=%s", id, path))
+				fmt.Printf("  violated: %s — %s\n  counterexample: %s\n  native replay: %s\n", v.Label, v.Msg, cex, detail)
+			}
+			printed++
 		}
 	}
 
@@ -559,13 +584,21 @@ func matchKnown(known []KnownFinding, id, entry, label, cex string) *KnownFindin
 			continue
 		}
 		if kf.Label != "" && kf.Label != label {
-			continue
+			if ok, _ := regexp.MatchString("^(?:"+kf.Label+")$", label); !ok {
+				continue
+			}
 		}
 		if kf.Entry != "" && kf.Entry != entry {
 			continue
 		}
 		if kf.Match != "" {
 			if ok, _ := regexp.MatchString(kf.Match, cex); !ok {
+				continue
+			}
+		}
+		if kf.Predicate != "" {
+			p := cexPredicates[kf.Predicate]
+			if p == nil || !p(curViolation.Names, curViolation.Vector) {
 				continue
 			}
 		}
